@@ -2,7 +2,7 @@ STREAMS = ["c11"]
 RULE = ("the real gateway handlers in-process: 8 points of the exchange (before the handshake, after each of the four steps, with "
         "data in flight client->host, host->client, both) x 7 ways of ending (CLOSE_CHANNEL, out-of-order packet, unframeable "
         "bytes, TCP close, TCP reset with SO_LINGER 0, close of the legacy IN connection only, of the legacy OUT connection only) "
-        "x both transports = 96 cells (thorough: x10); within 2 s: EOF at the backend, the remaining client-facing connections "
+        "x both transports = 96 cells, plus 8 special endings (a repeated channel-create, the inbound connection closed before the client's first byte, unframeable input while the client is not reading and megabytes from the host are in flight, the outbound connection reset before the channel is requested) = 104 cells (thorough: x10); within 2 s: EOF at the backend, the remaining client-facing connections "
         "closed by the gateway, registry size, the two connection gauges (default Prometheus gatherer) and the number of "
         "goroutines with gateway frames back to the baseline. distinct = distinct cell; non-trivial = every cell")
 MODELLED = ("what the two transport handlers, Tunnel.Close and the relay goroutine release (Model/Lifecycle.v over regenerated "
